@@ -40,6 +40,8 @@ static struct blk *tab;
 static size_t tab_cap, tab_used, tab_live;
 static long live_bytes, peak_live, serial_no, alloc_calls, fail_k1, fail_k2, locale_live;
 static int fail_fired;
+static char fail_kinds[8];
+static char cur_kind = '?';
 int vf_quarantine; /* 1: freed blocks are poisoned but never returned to the allocator (C18: no address reuse) */
 void (*vf_free_hook)(void *p, size_t size);
 void (*vf_alloc_hook)(void *p, size_t size);
@@ -108,6 +110,7 @@ void vf_counters_reset(void)
 	alloc_calls = 0;
 	fail_k1 = fail_k2 = 0;
 	fail_fired = 0;
+	fail_kinds[0] = 0;
 }
 long vf_live(void)
 {
@@ -126,6 +129,7 @@ void vf_fail_plan(long k1, long k2)
 	fail_k1 = k1;
 	fail_k2 = k2;
 	fail_fired = 0;
+	fail_kinds[0] = 0;
 }
 int vf_fail_fired(void)
 {
@@ -168,11 +172,20 @@ void vf_live_dump(sb_t *out, int max)
 		}
 }
 
+const char *vf_fail_kinds(void)
+{
+	return fail_kinds;
+}
 static int should_fail(size_t n)
 {
 	alloc_calls++;
 	if (alloc_calls == fail_k1 || alloc_calls == fail_k2)
 	{
+		if (fail_fired < 6)
+		{
+			fail_kinds[fail_fired] = cur_kind;
+			fail_kinds[fail_fired + 1] = 0;
+		}
 		fail_fired++;
 		errno = ENOMEM;
 		return 1;
@@ -188,6 +201,7 @@ static int should_fail(size_t n)
 void *vf_malloc(size_t n)
 {
 	VF_LOCK();
+	cur_kind = 'm';
 	if (should_fail(n))
 	{
 		VF_UNLOCK();
@@ -213,6 +227,7 @@ void *vf_calloc(size_t a, size_t b)
 		return NULL;
 	}
 	VF_LOCK();
+	cur_kind = 'c';
 	if (should_fail(n))
 	{
 		VF_UNLOCK();
@@ -271,6 +286,7 @@ static void *vf_realloc_locked(void *p, size_t n)
 		mc_violation("seam:realloc-of-unknown-pointer", "realloc(%p): not a live block", p);
 		abort();
 	}
+	cur_kind = 'r';
 	if (should_fail(n))
 		return NULL;
 	size_t old = b->size;
@@ -320,6 +336,7 @@ int vf_vasprintf(char **out, const char *fmt, va_list ap)
 locale_t vf_duplocale(locale_t l)
 {
 	VF_LOCK();
+	cur_kind = 'l';
 	int f = should_fail(0);
 	VF_UNLOCK();
 	if (f)
@@ -332,6 +349,7 @@ locale_t vf_duplocale(locale_t l)
 locale_t vf_newlocale(int mask, const char *name, locale_t base)
 {
 	VF_LOCK();
+	cur_kind = 'l';
 	int f = should_fail(0);
 	VF_UNLOCK();
 	if (f)
